@@ -252,6 +252,10 @@ func appCtrl(hdr []int, from ast.HSMSMessage, raw []byte) ast.HSMSMessage {
 		return ast.NewHSMSMessageSelectReq(sid, sys)
 	case 2:
 		return ast.NewHSMSMessageSelectRsp(from, h[3])
+	case 3:
+		return ast.NewHSMSMessageDeselectReq(sid, sys)
+	case 4:
+		return ast.NewHSMSMessageDeselectRsp(from, h[3])
 	case 5:
 		return ast.NewHSMSMessageLinktestReq(sys)
 	case 6:
